@@ -34,6 +34,9 @@ func (vc *VC) instr(in ssa.Instruction, h *Heap) {
 			dyn = id
 		} else if id, ok := vc.backingType(et); ok {
 			dyn = id
+		} else if _, isArr := et.Underlying().(*types.Array); !isArr {
+			dyn = vc.typeID(et)
+			vc.recordIDType(dyn, et)
 		}
 		o := vc.alloc(h, vc.curR, dyn)
 		vc.vals[x] = []string{"(mkptr " + o + " 0 0)"}
